@@ -26,7 +26,7 @@ def main(argv):
             if o.verdict != 'unsat':
                 print('   %s: %s [%s]' % (o.verdict.upper(), o.name, o.backend))
                 if o.model:
-                    print('      model:', o.model)
+                    print('      model:', str(o.model)[:600])
                 print('      trace:', ' '.join(o.trace or []))
         for u in r['unmodelled']:
             print('   unmodelled:', u)
